@@ -86,6 +86,8 @@ var ptyUnavailable bool
 // realFaultKind says which real fault (if any) can stand in for the simulated one.
 func realFaultKind(c *IOCase) string {
 	switch {
+	case c.Fifo:
+		return ""
 	case c.StdoutFailAfter == 0 && c.FailAfter < 0 && c.OpenFault == "":
 		return "devfull"
 	case c.StdoutFailAfter >= 0 || c.Transient != "":
